@@ -532,6 +532,11 @@ fn mk_by_size<P: Pay + Held>(kind: &str, n: u64, s: u64, name: &str) -> Option<B
 // ---------------------------------------------------------------------------------------------
 // the SUT
 
+/// the capacity probe is meaningful at quiescence too (parked tasks), so it is never skipped for that reason
+fn not_complete_blocks(_not_complete: bool) -> bool {
+    false
+}
+
 pub struct ChanSut {
     api: Mutex<Option<Box<dyn ChanApi>>>,
     api_ref: &'static dyn ChanApi,
@@ -544,6 +549,7 @@ pub struct ChanSut {
     multi: bool,
     tracked: bool,
     drain: bool,
+    probe: i64,
 }
 
 pub fn make(kind: &str, scn: &Value) -> Option<Arc<dyn Sut>> {
@@ -569,6 +575,7 @@ pub fn make(kind: &str, scn: &Value) -> Option<Arc<dyn Sut>> {
         multi: kind.starts_with("multi_"),
         tracked,
         drain: scn["drain"].as_bool().unwrap_or(true),
+        probe: scn["probe"].as_i64().unwrap_or(-1),
     };
     // streams created before any thread runs (hooks inactive)
     for how in scn["pre_streams"].as_array().cloned().unwrap_or_default() {
@@ -582,6 +589,7 @@ impl ChanSut {
         self.api_ref
     }
 
+    #[allow(clippy::needless_lifetimes)]
     fn create(&self, how: &str) -> Vec<(usize, u32)> {
         let new = self.api().create(how);
         let mut st = self.streams.lock().unwrap();
@@ -708,8 +716,10 @@ impl Sut for ChanSut {
                 json!({"ok": ok, "v": 0})
             }
             "create" => {
-                let made = self.create(op["how"].as_str().unwrap_or("new"));
-                json!({"ok": true, "v": 0, "s": made.iter().map(|x| x.0).collect::<Vec<_>>(), "ids": made.iter().map(|x| x.1).collect::<Vec<_>>()})
+                let how = op["how"].as_str().unwrap_or("new");
+                let made = self.create(how);
+                let how_of = if how == "split" { "old" } else { how };
+                json!({"ok": true, "v": 0, "how": how_of, "s": made.iter().map(|x| x.0).collect::<Vec<_>>(), "ids": made.iter().map(|x| x.1).collect::<Vec<_>>()})
             }
             "poll" => self.poll_once(ctx, op["s"].as_u64().unwrap() as usize, op["hold"].as_bool().unwrap_or(false)),
             "drive" => {
@@ -810,11 +820,25 @@ impl Sut for ChanSut {
                 left.push(json!({"s": 0, "vs": vs}));
             }
         }
-        // capacity probe: with everything consumed and released, exactly BUFFER_SIZE sends must be accepted
         let held_now = self.held.lock().unwrap().iter().filter(|x| x.is_some()).count();
         let reserved_now: usize = self.reserved.lock().unwrap().iter().map(|v| v.len()).sum();
+        // capacity probe: with everything consumed and released, exactly BUFFER_SIZE sends must be accepted
+        let mut probe = -1i64;
+        if self.probe >= 0 && !frozen && self.drain && !not_complete_blocks(not_complete) {
+            let items: Vec<_> = self.held.lock().unwrap().iter_mut().filter_map(|x| x.take()).collect();
+            drop(items);
+            probe = 0;
+            for k in 0..(self.probe + 2) {
+                if api.send(990_000 + k as u64) {
+                    probe += 1;
+                } else {
+                    break;
+                }
+            }
+        }
         json!({"hard": false, "not_complete": not_complete, "frozen": frozen, "pending": pending, "running": running, "open": open,
-               "live": live, "left": left, "held": held_now, "reserved": reserved_now, "drained": !frozen && self.drain})
+               "live": live, "left": left, "held": held_now, "reserved": reserved_now, "drained": !frozen && self.drain,
+               "probe": probe, "probe_expected": self.probe})
     }
 
     fn after_finish(&self, obs: &mut Value, hard: bool) {
